@@ -11,7 +11,7 @@ pub fn def() -> CheckDef {
         meta: CheckMeta {
             id: "C05",
             level: "exploration",
-            rule: "after every commit of generated histories (C01 grammar, plus bucket-deletion storms: several delete_bucket at different nesting levels in one transaction incl. nested-then-ancestor and delete-recreate-delete; plus mixed buckets of 12-120 alternating key/value pairs and touched sub-buckets with delete runs; plus all deletion subsets of small multi-level trees; plus histories whose free list sweeps slowly up and down through the capacity of one and of two free-list pages) the raw file is parsed by the independent checker (exact page accounting over [2, high-water mark): reachable once / free-list page / free-list entry; ids, types, element bounds, key order within and across pages, separators bounding subtrees), DB::check() is run, and both must agree. Non-trivial = case with a bucket deletion at depth >= 1, or a merge / split / root collapse / overflow value / file growth observed between commits. Distinct = hash of the case.",
+            rule: "after every commit of generated histories (C01 grammar, plus bucket-deletion storms: several delete_bucket at different nesting levels in one transaction incl. nested-then-ancestor and delete-recreate-delete; plus mixed buckets of 12-120 alternating key/value pairs and touched sub-buckets with delete runs; plus all deletion subsets of small multi-level trees; plus histories whose free list sweeps slowly up and down through the capacity of one and of two free-list pages, half of them with a close and reopen after every commit) the raw file is parsed by the independent checker (exact page accounting over [2, high-water mark): reachable once / free-list page / free-list entry; ids, types, element bounds, key order within and across pages, separators bounding subtrees), DB::check() is run, and both must agree. Non-trivial = case with a bucket deletion at depth >= 1, or a merge / split / root collapse / overflow value / file growth observed between commits. Distinct = hash of the case.",
             assumptions: &[
                 "the independent parser encodes the pinned layout (DESIGN.md 1.1) and was validated on healthy and corrupted files",
                 "x86_64 Linux, tmpfs scratch",
@@ -63,8 +63,9 @@ fn shard(ctx: &ShardCtx, known: &Known) -> ShardOut {
         verdict(case, &opts, &commits)
     });
     // free lists that sweep through the capacity of one and two free-list pages, both ways
-    for i in 0..ctx.tier.pick(1, 8) {
-        let case = crate::gen::freelist_boundary_history(mix(ctx.shard_seed("flb"), i as u64));
+    for i in 0..ctx.tier.pick(2, 8) {
+        // low two bits of the seed: reopen after every commit (bit 0), long sweep up to a two-page free list (bit 1)
+        let case = crate::gen::freelist_boundary_history((mix(ctx.shard_seed("flb"), i as u64) & !3) | ((i as u64 + 2 * (ctx.shard as u64 % 2)) & 3));
         note_current(ctx, "history", &case);
         let mut v = verdict(&case, &opts, &commits);
         v.classes.push("free list swept through its page-capacity boundaries".into());
